@@ -1,7 +1,7 @@
 (** C17 — partitions round-trip key by key and merge as an overlay of their parents.
     Statements only (model Storage/Partition.v, proofs Storage/PartitionProofs.v). *)
 From Coq Require Import List ZArith String Bool.
-From Memento Require Import Storage.Cache Storage.Partition Storage.PartitionProofs Gen.SourceFacts Gen.FactsC17.
+From Memento Require Import Storage.Cache Storage.Partition Storage.PartitionProofs Storage.PartitionStores Gen.SourceFacts Gen.FactsC17.
 Import ListNotations.
 
 (** a partition reads back with exactly its key set and, per key, the value returned *)
@@ -56,6 +56,37 @@ Proof. exact relay_drops_inherited_refuted. Qed.
 
 Theorem C17_current_source_relay_keeps_inherited : partition_relay_keeps_inherited = Some true.
 Proof. exact partition_relay_keeps_inherited_ok. Qed.
+
+(** merge parents kept in OTHER stores (functions of different clusters): every link is stored in
+    the store of the function that made it. If inherited entries the target store does not hold are
+    stored there by value, every key of every stored link — parent-only keys included — can be loaded
+    from the link's own store, for chains of any length over any assignment of links to stores; the
+    index itself is the one of the single-store model (so the overlay theorems above apply) *)
+Theorem C17_cross_store_chain_loadable : forall own s rest,
+  let '(st, t) := stored_in true ((own, s) :: rest) in loadable st s t = true.
+Proof. exact cross_store_chain_loadable. Qed.
+Print Assumptions C17_cross_store_chain_loadable.
+
+Theorem C17_cross_store_index_is_single_store_index : forall copy chain,
+  snd (stored_in copy chain) = stored true (map (fun l => (fst l, FromStore)) chain).
+Proof. exact stored_in_index. Qed.
+
+(** by reference only, a parent-only key of a parent from another store cannot be loaded (what the
+    library did before 33486df); within one store references suffice *)
+Theorem C17_cross_store_reference_only_refuted :
+  exists chain s, let '(st, t) := stored_in false chain in
+    hd_error (map snd chain) = Some s /\ loadable st s t = false /\
+    loadable (fst (stored_in true chain)) s (snd (stored_in true chain)) = true.
+Proof. exact cross_store_reference_only_refuted. Qed.
+
+Theorem C17_same_store_reference_suffices : forall chain s,
+  Forall (fun l => snd l = s) chain -> chain <> [] ->
+  let '(st, t) := stored_in false chain in loadable st s t = true.
+Proof. exact same_store_reference_suffices. Qed.
+Print Assumptions C17_same_store_reference_suffices.
+
+Theorem C17_current_source_copies_across_stores : partition_cross_store_copied = Some true.
+Proof. exact partition_cross_store_copied_ok. Qed.
 
 Example C17_witness :
   let chain := [([("b", 30); ("d", 40)], InProcess); ([("b", 3); ("c", 4)], FromStore); ([("a", 1); ("b", 2)], FromStore)]%string%Z in
